@@ -225,4 +225,4 @@ Definition has_stream (l : list section) : bool :=
 Definition repair_swallows (s : shape) : bool := s_relaxed s && has_stream (s_sections s).
 
 (* "number of enclosing stages": the late-poll bound outside the defect class *)
-Definition stage_bound : N := 5.
+Definition stage_bound : N := 6.
